@@ -142,15 +142,15 @@ fn main() {
             let (p1, p2) = (parts[1].clone(), parts[2].clone());
             let tree = parts[0] == "tree";
             let h = std::thread::Builder::new().spawn(move || {
-                big::measure(kb * 1024, move || if tree { (big::tree_scenario(n, &p1, &p2), 0, 0) } else { big::bool_scenario(n, &p1, &p2) })
+                big::measure(kb * 1024, move || if tree { (big::tree_scenario(n, &p1, &p2), 0, 0, 0) } else { big::bool_scenario(n, &p1, &p2) })
             });
             match h.expect("spawn").join() {
-                Ok((hwm, (a, b, c))) => println!(
-                    "{{\"ev\":\"stack\",\"scenario\":\"{}\",\"n\":{},\"stack_kb\":{},\"hwm\":{},\"exit\":\"ok\",\"size\":{},\"popped\":{},\"polys\":{}}}",
-                    sc, n, kb, hwm, a, b, c
+                Ok((hwm, (a, b, c, d))) => println!(
+                    "{{\"ev\":\"stack\",\"scenario\":\"{}\",\"n\":{},\"stack_kb\":{},\"hwm\":{},\"exit\":\"ok\",\"size\":{},\"popped\":{},\"polys\":{},\"area2\":{}}}",
+                    sc, n, kb, hwm, a, b, c, d
                 ),
                 Err(_) => println!(
-                    "{{\"ev\":\"stack\",\"scenario\":\"{}\",\"n\":{},\"stack_kb\":{},\"hwm\":0,\"exit\":\"panic\",\"size\":0,\"popped\":0,\"polys\":0}}",
+                    "{{\"ev\":\"stack\",\"scenario\":\"{}\",\"n\":{},\"stack_kb\":{},\"hwm\":0,\"exit\":\"panic\",\"size\":0,\"popped\":0,\"polys\":0,\"area2\":0}}",
                     sc, n, kb
                 ),
             }
